@@ -209,6 +209,15 @@ func calleeName(call *ssa.Call) (pkg, name string) {
 	if m := an.InvokeMethod(call); m != nil {
 		return "iface", m.Name()
 	}
+	// a method value chosen at run time among siblings (Pause / UnPause): any of them names the class of the call
+	if cs := an.MethodValueCallees(call); len(cs) > 0 && cs[0] != nil {
+		f := cs[0]
+		pk := ""
+		if f.Pkg != nil {
+			pk = f.Pkg.Pkg.Path()
+		}
+		return strings.TrimPrefix(pk, an.ModPath+"/"), f.Name()
+	}
 	return "", ""
 }
 
